@@ -1194,7 +1194,7 @@ class Interp(BuiltinsMixin):
                 Tup((Const(k), v)) for k, v in sorted(kw.items())))
         return None
 
-    def st_YieldExpr(self, value, fr, path):
+    def st_YieldExpr(self, value, fr, path, spread=False):
         f = fr
         while f is not None and '$yield' not in path.heap[f].vars:
             f = path.heap[f].parent
@@ -1202,7 +1202,7 @@ class Interp(BuiltinsMixin):
         h = path.heap[lst.oid]
         gens = path.loops[h.loops_len:]
         conds = tuple(path.pc[h.pc_len:])
-        h.parts.append(Part('elem', value,
+        h.parts.append(Part('spread' if spread else 'elem', value,
                             gens=[(l.var, l.iterable) for l in gens],
                             conds=conds))
 
